@@ -6,7 +6,7 @@ import itertools
 import os
 
 from vf.explore.deviate import explore, PlanHook, Run
-from vf.harness import use_world, outcome, freeze, sample, guarded, add_histories, history_of
+from vf.harness import use_world, outcome, freeze, sample, guarded, add_histories, history_of, LongLived
 from vf.simk.world import World, FD
 
 ID = "C14"
@@ -110,12 +110,12 @@ def set_table(p, table, extra=b""):
     p.fds = {fd: FD(target(kind, fd), kind, pos, flags, extra) for fd, (kind, pos, flags) in table.items()}
 
 
-def run_case(case, st):
+def _run_case(case, st):
     import psutil
     w, p = st
     k = case[0]
     p.io_raw = None
-    pr = psutil.Process(p.pid)
+    pr = LongLived.get(psutil, w, p.pid)
     bad = []
     if k == "table":
         table = {int(fd): tuple(v) for fd, v in case[1].items()}
@@ -133,6 +133,10 @@ def run_case(case, st):
         if got[0] != "ok" or {f: getattr(got[1], f) for f in exp} != exp:
             bad.append(("io_counters:%s" % case[2], "io_counters() -> %r for %r" % (freeze(got), case[1])))
     return bad
+
+
+def run_case(case, st):
+    return LongLived.both(_run_case, case, st)
 
 
 def worker(chunk):
